@@ -654,6 +654,186 @@ def run(chk):
                 if ax != ex:
                     chk.violation(r_axs, key, "%s: `%s` is used as the %s index (argument %d of an (i, j, k) interface) but is compared with the extent of the %s axis in `%s`: on a grid with different extents cells inside the grid are rejected (or cells outside it accepted)" % (f["q"], a_["n"], "IJK"[ax], ax + 1, "IJK"[ex], show(n)), f["file"], n["l"])
 
+    # ---- C13.pind: where the four pillars and the eight corner depths of a cell sit in COORD and ZCORN
+    r_pi = chk.rule("C13.pind", "getCellCorners (EclipseGrid and both EclIO::EGrid versions): the COORD offsets of the cell's four pillars are base + 6 ((j + b)(nx + 1) + (i + a)) for (a, b) = (0,0), (1,0), (0,1), (1,1) - base the reservoir shift of the EGRID file version, 0 otherwise - and the ZCORN offsets of its corners are 8 k nx ny + 4 c nx ny + 4 j nx + 2 b nx + 2 i + a for corner (a, b, c); compared as polynomials after evaluating the index arithmetic symbolically (push_back sequences and the loop that adds the bottom face are unrolled)", floor=3)
+
+    def corner_index_terms(f):
+        axes = {}
+        extents = set()
+        for p_ in f["params"]:
+            if "array<int, 3>" in (p_.get("t") or ""):
+                if not axes:
+                    axes[p_["n"]] = ("i", "j", "k")       # the cell's (i, j, k); a second triple holds the grid's extents
+                else:
+                    extents.add(p_["n"])
+
+        def leaf(e):
+            if e.get("k") in ("Idx", "OpCall") and len(e.get("c") or e.get("a") or []) == 2 and (e["k"] == "Idx" or e.get("op") == "[]"):
+                b_, i_ = [strip(x) for x in (e.get("c") or e.get("a"))]
+                bt = show(b_).replace("this.", "")
+                if i_.get("k") == "Int":
+                    if bt in axes:
+                        return sy.S(axes[bt][int(i_["v"])])
+                    if bt in ("nijk", "m_nijk") or bt in extents:
+                        return sy.S(("nx", "ny", "nz")[int(i_["v"])])
+            if e.get("k") == "MCall" and e.get("m") == "at" and "res" in show(e.get("obj")):
+                return sy.S("r")
+            if e.get("k") == "MCall" and e.get("m") in ("getNX", "getNY", "getNZ"):
+                return sy.S({"getNX": "nx", "getNY": "ny", "getNZ": "nz"}[e["m"]])
+            return None
+        vecs = {}
+        locs = set()
+        for n in walk(f["body"]):
+            if n["k"] == "Decl":
+                for v in n["vars"]:
+                    locs.add(v["n"])
+        ev = sy.Eval(leaf, locs)
+        env = {}
+
+        def do(stmts):
+            for st_ in stmts:
+                if st_["k"] == "Decl":
+                    for v in st_["vars"]:
+                        if isinstance(v.get("init"), dict) and re.search(r"\b(int|size_t|long|unsigned)\b", v.get("t") or "") and "vector" not in (v.get("t") or "") and "array" not in (v.get("t") or ""):
+                            env[v["n"]] = ev.term(v["init"], env)
+                elif st_["k"] == "MCall" and st_.get("m") == "push_back" and strip(st_.get("obj") or {}).get("k") == "Ref" and strip(st_["obj"])["n"] in ("pind", "zind"):
+                    nm_ = strip(st_["obj"])["n"]
+                    idx = vecs.get(nm_, 0)
+                    env["%s[%d]" % (nm_, idx)] = ev.term(st_["a"][0], env)
+                    vecs[nm_] = idx + 1
+                elif st_["k"] == "Bin" and st_.get("asg") and st_["op"] == "=" and ev.element(st_["c"][0], env) and ev.element(st_["c"][0], env).split("[")[0] in ("pind", "zind"):
+                    env[ev.element(st_["c"][0], env)] = ev.term(st_["c"][1], env)
+                elif st_["k"] == "For" and isinstance(st_.get("init"), dict) and st_["init"].get("k") == "Decl":
+                    iv = st_["init"]["vars"][0]["n"]
+                    lo = st_["init"]["vars"][0].get("init")
+                    c = strip(st_["cond"])
+                    body_txt = show(st_["body"])
+                    if strip(lo or {}).get("k") == "Int" and c.get("op") == "<" and strip(c["c"][1]).get("k") == "Int" and ("zind" in body_txt or "pind" in body_txt) and ("push_back" in body_txt or re.search(r"\(?[zp]ind\[", body_txt.split("=")[0] if "=" in body_txt else "")):
+                        for val in range(int(strip(lo)["v"]), int(strip(c["c"][1])["v"])):
+                            env[iv] = sy.I(val)
+                            do(stmt_list(st_["body"]))
+                        env.pop(iv, None)
+        do(stmt_list(f["body"]))
+        return env
+    i_, j_, k_, nx_, ny_ = (sy.S(x) for x in ("i", "j", "k", "nx", "ny"))
+    n_pi = 0
+    for f in fx.fns:
+        if f["n"] != "getCellCorners" or not f.get("body") or "pind" not in show(f["body"]):
+            continue
+        env = corner_index_terms(f)
+        has_res = "res.at(" in show(f["body"]).replace("this.", "")
+        base = sy.mul(sy.S("r"), sy.add(nx_, sy.I(1)), sy.add(ny_, sy.I(1)), sy.I(6)) if has_res else sy.I(0)
+        nz_corners = 8 if "zind[7]" in env or "zind[4]" in env else 4
+        key = "%s@%d" % (f["q"], f["l"])
+        bad = []
+        for b in (0, 1):
+            for a in (0, 1):
+                want = sy.add(base, sy.mul(sy.I(6), sy.add(sy.mul(sy.add(j_, sy.I(b)), sy.add(nx_, sy.I(1))), sy.add(i_, sy.I(a)))))
+                got = env.get("pind[%d]" % (a + 2 * b))
+                if got != want:
+                    bad.append(("pind[%d]" % (a + 2 * b), sy.show_term(got), sy.show_term(want)))
+        for c in range(nz_corners // 4):
+            for b in (0, 1):
+                for a in (0, 1):
+                    want = sy.add(sy.mul(sy.I(8), k_, nx_, ny_), sy.mul(sy.I(4 * c), nx_, ny_), sy.mul(sy.I(4), j_, nx_), sy.mul(sy.I(2 * b), nx_), sy.mul(sy.I(2), i_), sy.I(a))
+                    got = env.get("zind[%d]" % (a + 2 * b + 4 * c))
+                    if got != want:
+                        bad.append(("zind[%d]" % (a + 2 * b + 4 * c), sy.show_term(got), sy.show_term(want)))
+        n_pi += 1
+        chk.instance(r_pi, key, sample=dict(function=f["q"], line=f["l"], reservoir_shift=has_res, corners=nz_corners, mismatches=len(bad)))
+        for nm_, got, want in bad:
+            chk.violation(r_pi, "%s:%s" % (key, nm_), "%s (line %d): %s evaluates to %s; the cell's pillar / corner sits at %s - corner coordinates are then taken from a neighbouring pillar or another cell's depth" % (f["q"], f["l"], nm_, got, want), f["file"], f["l"])
+    if n_pi < 3:
+        raise core.AnalysisBroken("C13.pind: %d getCellCorners implementations with pillar indices found (3 expected)" % n_pi)
+
+    # ---- C13.volume: the hexahedron volume as the integral of the Jacobian determinant of the trilinear map
+    r_vo = chk.rule("C13.volume", "calculateCellVol: C(r, a, b, g) is the coefficient of alpha^a beta^b gamma^g of the trilinear interpolant of the corner values r[0..7] (corner index = a + 2 b + 4 g); the six axis permutations come with alternating parity, matching the sign that is flipped after each; the 64 exponent sextuples are all different; every term is sign C(x_p0; 1, pb, pg) C(x_p1; qa, 1, qg) C(x_p2; ra, rb, 1) / ((qa+ra+1)(pb+rb+1)(pg+qg+1)) - the monomial integrated over the unit cube", floor=12)
+    vx = chk.facts(["opm/common/utility/numeric/calculateCellVol.cpp"])
+    cf_ = [f for f in vx.fns if f["n"] == "C" and f.get("body") and len(f["params"]) == 4]
+    cv_ = [f for f in vx.fns if f["n"] == "calculateCellVol" and f.get("body")]
+    if len(cf_) != 1 or len(cv_) != 1:
+        raise core.AnalysisBroken("calculateCellVol.cpp: C(r, i1, i2, i3) / calculateCellVol not found")
+    cf_, cv_ = cf_[0], cv_[0]
+    rp = cf_["params"][0]["n"]
+    gdecl = {v["n"]: v for n in stmt_list(cf_["body"]) if n["k"] == "Decl" for v in n["vars"]}
+
+    def leaf_c(e):
+        if e.get("k") in ("Idx", "OpCall") and len(e.get("c") or e.get("a") or []) == 2:
+            b_, i_ = [strip(x) for x in (e.get("c") or e.get("a"))]
+            if b_.get("k") == "Ref" and b_.get("n") == rp and i_.get("k") == "Int":
+                return sy.S("r%d" % int(i_["v"]))
+        if e.get("k") == "Ref" and e.get("d") == "Parm" and e.get("n") in [p_["n"] for p_ in cf_["params"][1:]]:
+            return sy.S("i%d" % ([p_["n"] for p_ in cf_["params"]].index(e["n"])))
+        return None
+    evc = sy.Eval(leaf_c, set(gdecl))
+    gname = list(gdecl)[0] if len(gdecl) == 1 else None
+    gterm = evc.term(gdecl[gname]["init"], {}) if gname else None
+    chk.instance(r_vo, "C:index", sample=dict(index=sy.show_term(gterm)))
+    if gterm != sy.add(sy.S("i1"), sy.mul(sy.I(2), sy.S("i2")), sy.mul(sy.I(4), sy.S("i3"))):
+        chk.violation(r_vo, "C:index", "C(r, i1, i2, i3) selects its case by %s; the corner numbering needs i1 + 2 i2 + 4 i3" % sy.show_term(gterm), cf_["file"], cf_["l"])
+    R = [sy.S("r%d" % k_) for k_ in range(8)]
+    neg = lambda t: sy.mul(sy.I(-1), t)
+    WANT_C = {0: R[0], 1: sy.add(R[1], neg(R[0])), 2: sy.add(R[2], neg(R[0])), 3: sy.add(R[3], R[0], neg(R[2]), neg(R[1])), 4: sy.add(R[4], neg(R[0])),
+              5: sy.add(R[5], R[0], neg(R[4]), neg(R[1])), 6: sy.add(R[6], R[0], neg(R[4]), neg(R[2])), 7: sy.add(R[7], R[4], R[2], R[1], neg(R[6]), neg(R[5]), neg(R[3]), neg(R[0]))}
+    got_c = {}
+    for n in stmt_list(cf_["body"]):
+        if n["k"] == "If":
+            c = strip(n["cond"])
+            rr = [x for x in walk(n["then"]) if x["k"] == "Return"]
+            if c.get("op") == "==" and strip(c["c"][0]).get("n") == gname and strip(c["c"][1]).get("k") == "Int" and len(rr) == 1:
+                got_c[int(strip(c["c"][1])["v"])] = (evc.term(rr[0]["e"], {}), n["l"])
+        elif n["k"] == "Return":
+            got_c[7] = (evc.term(n["e"], {}), n["l"])
+    for g_, want in WANT_C.items():
+        t, ln = got_c.get(g_, (None, cf_["l"]))
+        chk.instance(r_vo, "C:%d" % g_, sample=dict(case=g_, returns=sy.show_term(t)))
+        if t != want:
+            chk.violation(r_vo, "C:%d" % g_, "C(...) for corner-exponent index %d returns %s; the trilinear coefficient is %s" % (g_, sy.show_term(t), sy.show_term(want)), cf_["file"], ln)
+    tabs_v = {v["n"]: v for n in walk(cv_["body"]) if n["k"] == "Decl" for v in n["vars"] if isinstance(v.get("init"), dict)}
+    perm_v = [v for v in tabs_v.values() if "array<std::array<std::size_t, 3>, 6>" in (v.get("t") or "").replace("unsigned long", "std::size_t")]
+    pqr_v = [v for v in tabs_v.values() if "pqr_t, 64" in (v.get("t") or "")]
+    if len(perm_v) != 1 or len(pqr_v) != 1:
+        raise core.AnalysisBroken("calculateCellVol: permutation / exponent tables not found")
+
+    def rows(init, width):
+        ints = [int(x["v"]) for x in walk(init) if x["k"] == "Int"]
+        return [tuple(ints[i_:i_ + width]) for i_ in range(0, len(ints), width)]
+    prow = rows(perm_v[0]["init"], 3)
+
+    def parity(p_):
+        return sum(1 for a in range(3) for b in range(a + 1, 3) if p_[a] > p_[b]) % 2
+    okp = len(prow) == 6 and sorted(prow) == sorted(__import__("itertools").permutations(range(3))) and [parity(p_) for p_ in prow] == [0, 1, 0, 1, 0, 1]
+    chk.instance(r_vo, "permutations", sample=dict(rows=prow, parities=[parity(p_) for p_ in prow] if len(prow) == 6 else None))
+    if not okp:
+        chk.violation(r_vo, "permutations", "calculateCellVol: the permutation table %s does not list the six permutations of (0, 1, 2) with alternating parity (even, odd, ...): the sign flipped after every row no longer is the sign of the permutation" % prow, cv_["file"], perm_v[0]["l"])
+    qrow = rows(pqr_v[0]["init"], 6)
+    okq = len(qrow) == 64 and len(set(qrow)) == 64 and all(x in (0, 1) for r_ in qrow for x in r_)
+    chk.instance(r_vo, "exponents", sample=dict(rows=len(qrow), distinct=len(set(qrow))))
+    if not okq:
+        chk.violation(r_vo, "exponents", "calculateCellVol: the exponent table has %d rows, %d distinct (64 different 0/1 sextuples expected): a monomial of the determinant expansion is missing or counted twice" % (len(qrow), len(set(qrow))), cv_["file"], pqr_v[0]["l"])
+    vtxt = show(cv_["body"])
+    loopq = [n for n in walk(cv_["body"]) if n["k"] == "ForRange" and show(strip(n["range"])) == pqr_v[0]["n"]]
+    okt = False
+    det = {}
+    if len(loopq) == 1:
+        q_ = loopq[0]["var"]["n"]
+        dl = {v["n"]: show(strip(v["init"])) for n in stmt_list(loopq[0]["body"]) if n["k"] == "Decl" for v in n["vars"] if isinstance(v.get("init"), dict)}
+        vn = [v["n"] for n in walk(cv_["body"]) if n["k"] == "Decl" for v in n["vars"] if "const double *[3]" in (v.get("t") or "") or "double *[3]" in (v.get("t") or "")]
+        vv = vn[0] if vn else "vect"
+        want_c = "((C(%s[0], 1, %s.pb, %s.pg) * C(%s[1], %s.qa, 1, %s.qg)) * C(%s[2], %s.ra, %s.rb, 1))" % (vv, q_, q_, vv, q_, q_, vv, q_, q_)
+        want_d = "((((%s.qa + %s.ra) + 1) * ((%s.pb + %s.rb) + 1)) * ((%s.pg + %s.qg) + 1))" % (q_, q_, q_, q_, q_, q_)
+        cp = [k_ for k_, v in dl.items() if v.replace("(anonymous namespace)::", "") == want_c]
+        dn = [k_ for k_, v in dl.items() if v == want_d]
+        det = dict(locals=dl)
+        if len(cp) == 1 and len(dn) == 1:
+            acc = [show(x) for x in stmt_list(loopq[0]["body"]) if x["k"] == "Bin" and x.get("asg")]
+            sgn = [v["n"] for n in stmt_list(cv_["body"]) if n["k"] == "Decl" for v in n["vars"] if show(v.get("init")) in ("1", "1.0") and "double" in (v.get("t") or "")]
+            okt = len(sgn) == 1 and acc == ["(volume += ((%s * %s) / %s))" % (sgn[0], cp[0], dn[0])] and "(%s *= (-1))" % sgn[0] in vtxt and "(%s[perm_index] = data[perm[perm_index]].data())" % vv in vtxt.replace("$", "")
+            det["accumulate"] = acc
+    chk.instance(r_vo, "term", sample=det)
+    if not okt:
+        chk.violation(r_vo, "term", "calculateCellVol: a term of the volume is no longer sign * C(x_p0; 1, pb, pg) * C(x_p1; qa, 1, qg) * C(x_p2; ra, rb, 1) / ((qa+ra+1)(pb+rb+1)(pg+qg+1)) with the sign flipped after each permutation and the coordinate arrays taken in the order of the permutation (%s)" % det, cv_["file"], loopq[0]["l"] if loopq else cv_["l"])
+
     # ---- C13.extend: layers that the deck gave are kept when a short DX/DY/DZ/TOPS array is extended downwards
     r_ex = chk.rule("C13.extend", "EclipseGrid::createDVector / createTOPSVector extend an array given for the top layers only: after resize(volume) an element is assigned only if its index is at least the size the deck gave (the loop starts there, or the assignment sits under `index >= given size`), or - TOPS - under a test that the computed value agrees with the given one within a tolerance; the copied value comes from the cell one layer (nx*ny) above", floor=3)
     for nm in ("createDVector", "createTOPSVector"):
